@@ -17,10 +17,12 @@ Inductive query :=
 
 Inductive case :=
 (* path: 0 = BMI2 build, 1 = portable; dbg: overflow checks on; (len, words): the bit sequence;
-   ser: serialized elements with all three supports enabled; routes: the three construction routes gave
+   sup: which supports were enabled (1 rank + 2 select + 4 select_zero); ser: serialized elements; routes: the three construction routes gave
    equal vectors with identical bytes; len/ones/zeros as reported *)
-| CBV (path : N) (dbg : bool) (len : N) (words : list N) (ser : list N) (routes : bool)
-      (r_len r_ones r_zeros : N) (qs : list query).
+| CBV (path : N) (dbg : bool) (sup : N) (len : N) (words : list N) (ser : list N) (routes : bool)
+      (r_len r_ones r_zeros : N) (qs : list query)
+(* the implementation panicked while building or querying this bit sequence (class k) *)
+| CCrash (len : N) (words : list N) (k : N).
 
 Definition sp_of (path : N) : selpath := if path =? 0 then Pdep else Portable.
 Definition mode_of (dbg : bool) : mode := if dbg then Debug else Release.
@@ -54,31 +56,39 @@ Definition spec_query (B : list bool) (os zs : list N) (q : query) : bool :=
   | QSucc v out => onn_eqb (hd_error (drop_below (index_from os 0) v)) out
   end.
 
+Definition enable_mask (sp : selpath) (m : mode) (sup : N) (b : bitvec) : res bitvec :=
+  let* b1 := if N.testbit sup 0 then bv_enable_rank b else Ok b in
+  let* b2 := if N.testbit sup 1 then bv_enable_select_t sp m Identity b1 else Ok b1 in
+  if N.testbit sup 2 then bv_enable_select_t sp m Complement b2 else Ok b2.
+
 Definition check (c : case) : N :=
   match c with
-  | CBV path dbg len words ser routes r_len r_ones r_zeros qs =>
+  | CBV path dbg sup len words ser routes r_len r_ones r_zeros qs =>
       let sp := sp_of path in let m := mode_of dbg in
       let m_ok :=
-        match bv_enable_all sp m (bv_from_raw (mkraw len words)) with
+        match enable_mask sp m sup (bv_from_raw (mkraw len words)) with
         | Ok b => nlist_eqb (bv_serialize b) ser && (bv_len b =? r_len) && (bv_count_ones b =? r_ones)
                   && (bv_count_zeros b =? r_zeros) && forallb (model_query sp m b) qs
         | _ => false
         end in
       let B := bits_of len words in
-      let os := ones B in let zs := zeros B in
+      let os := if N.testbit sup 0 || N.testbit sup 1 then ones B else [] in
+      let zs := if N.testbit sup 2 then zeros B else [] in
       let s_ok := routes && (lenB B =? r_len) && (count B =? r_ones) && (lenB B - count B =? r_zeros)
                   && forallb (spec_query B os zs) qs in
       code m_ok s_ok
+  | CCrash _ _ _ => 3
   end.
 
 (* what the model computes for a case (for replays) *)
 Definition explain (c : case) :=
   match c with
-  | CBV path dbg len words ser routes r_len r_ones r_zeros qs =>
+  | CBV path dbg sup len words ser routes r_len r_ones r_zeros qs =>
       let sp := sp_of path in let m := mode_of dbg in
-      match bv_enable_all sp m (bv_from_raw (mkraw len words)) with
+      match enable_mask sp m sup (bv_from_raw (mkraw len words)) with
       | Ok b => (nlist_eqb (bv_serialize b) ser, map (model_query sp m b) qs,
                  let B := bits_of len words in map (spec_query B (ones B) (zeros B)) qs)
       | _ => (false, [], [])
       end
+  | CCrash _ _ _ => (false, [], [])
   end.
